@@ -120,7 +120,7 @@ def atnums_for(rng, natom, cls):
 def st_object(fmt, big=False):
     if fmt == "xyz":
         d = st_common(fmt, 12000, big)
-        d["columns"] = st.sampled_from(["default", "default", "charges_forces", "masses"])
+        d["columns"] = st.sampled_from(["default", "default", "charges_forces", "masses", "two_charge_sets"])
         return st.fixed_dictionaries(d)
     if fmt == "pdb":
         d = st_common(fmt, 12000, big)
@@ -282,6 +282,20 @@ def build_xyz(spec):
         kwargs["atgradient"] = np.round(rng.normal(size=(natom, 3)), 10)
         dump_kwargs["atom_columns"] = cols
         labels.append("opt:atom_columns")
+    elif spec["columns"] == "two_charge_sets":
+        # two columns taken from the same dictionary attribute (different keys), plus an extra key
+        # of another dictionary
+        cols = xyzmod.DEFAULT_ATOM_COLUMNS + [
+            ("atcharges", "mulliken", (), float, float, "{:10.5f}".format),
+            ("atcharges", "hirshfeld", (), float, float, "{:10.5f}".format),
+            ("extra", "weights", (), float, float, "{:10.5f}".format),
+        ]
+        kwargs["atcharges"] = {"mulliken": np.round(rng.normal(size=natom), 5),
+                               "hirshfeld": np.round(rng.normal(size=natom), 5)}
+        kwargs["extra"] = {"weights": np.round(rng.uniform(0, 1, size=natom), 5)}
+        dump_kwargs["atom_columns"] = cols
+        labels.append("opt:atom_columns")
+        labels.append("opt:atom_columns_same_attribute")
     elif spec["columns"] == "masses":
         cols = xyzmod.DEFAULT_ATOM_COLUMNS + [
             ("atmasses", None, (), float, (lambda word: float(word) * AMU),
